@@ -87,6 +87,22 @@ def _check(prop, tier, only) -> int:
         mod.run(ctx)
         if only is not None:
             ctx.findings = [f for f in ctx.findings if f.key == only]
+        if tier == "thorough" and only is None and not os.environ.get("VERIF_NO_SELFTEST") and not os.environ.get("VERIF_NO_EVIDENCE"):
+            # E7: the checker itself is tested both ways on scratch copies of the current tree
+            from . import selftest
+            from .core import AnalysisError
+            from .core import load_known
+            known = load_known()
+            unlisted = [f for f in ctx.findings if (known.get((prop, f.key)) or {}).get("status") != "known"]
+            if unlisted:
+                ctx.analysed["selftest"] = "skipped: the tree under analysis has unlisted violations"
+                return
+            results, problems = selftest.run_for_prop(prop)
+            ctx.analysed["selftest"] = {"variants": len(results), "results": results}
+            # only meaningful when the tree itself is clean of new violations; a checker that misses its own seeded
+            # mutants or fires on an equivalent edit is broken, not the repository
+            if problems:
+                raise AnalysisError("checker self-test failed: " + "; ".join(problems))
 
     return run_check(prop, tier, fn, getattr(mod, "LEVEL", level), mod.EXPLANATION, only)
 
